@@ -143,6 +143,20 @@ def triage(res: Result, rep, budget_cases=4000):
                         break
                 if reproduced:
                     break
+    if c is None and reproduced is None:
+        # engine reports (no single function contract): module-provided replayers turn the obligation into a concrete input
+        for mod in load_modules().values():
+            for prefix, fn in getattr(mod, "REPLAYERS", {}).items():
+                if rep.key.startswith(prefix):
+                    for o in failed:
+                        info = fn(o, res.seed)
+                        if info:
+                            reproduced = (o, info, "module replayer: bounded search guided by the failed obligation")
+                            break
+                if reproduced:
+                    break
+            if reproduced:
+                break
     if reproduced:
         o, info, how = reproduced
         payload = dict(property=res.pid, obligation=o.name, function=rep.key, source_sha256=rep.sha, backend=o.backend,
@@ -254,6 +268,8 @@ def run_canaries(res: Result, mods):
 
 def run_property(pid, tier="quick", seed=0, jobs=None, level="proof", replay=None):
     res = Result(pid, tier, seed)
+    for old in glob.glob(os.path.join(VERIF, "replays", f"{pid}_*.json")):
+        os.unlink(old)
     mods = load_modules()
     propmods = {n: m for n, m in mods.items() if n.split(".")[-1].startswith(pid + "_")}
     contracts = [c for c in api.REGISTRY.values() if c.prop == pid]
